@@ -79,11 +79,8 @@ func c22Tokens(parts []c22P, model bool) []string {
 		case 'O':
 			// a default / alternative expansion whose quoted operator word is substituted: for the
 			// model it is an unquoted expansion with that value
-			if model {
-				out = append(out, "E"+hx(p.val))
-			} else {
-				out = append(out, "O"+string(p.op)+hx(p.val))
-			}
+			// (the driver reads `O<op><hex>` as `E<hex>`; the token keeps the witness replayable)
+			out = append(out, "O"+string(p.op)+hx(p.val))
 		case 'D':
 			out = append(out, "D(")
 			for _, d := range p.ds {
@@ -964,7 +961,7 @@ func c22(c *Ctx) {
 			continue
 		}
 		switch f[0] {
-		case "wf":
+		case "wf", "specwf", "lit", "speclit", "litkeep":
 			c22RunCase(c, cs, true)
 		case "sh":
 			shCases = append(shCases, shCase{cs, l, false})
